@@ -590,6 +590,7 @@ func c13(r *core.Report) {
 		})
 	})
 	c13Format(r)
+	c13Absent(r)
 }
 
 // c13Alias: a document-owned payload is never stored into, or mutated through, a request value
@@ -885,6 +886,90 @@ func c13Format(r *core.Report) {
 		}
 		if k == 0 {
 			core.Fail("no fmt.Sprint of a document value found in validate_request.go")
+		}
+	})
+}
+
+// c13Absent: a default stands in for an ABSENT property. An explicit null is a value the client
+// sent: replacing it changes the request (and hides a null the schema forbids).
+func c13Absent(r *core.Report) {
+	p := r.Prog
+	info := p.Pkg("openapi3").TypesInfo
+	r.RunRule("C13.absent", "defaults are injected only for absent properties: every store of a schema's Default into the value being validated (`value[name] = ...Default...`) in package openapi3 is guarded by the absence of the key — a comma-ok lookup `_, present := value[name]` with `!present` — not by `value[name] == nil`, which is also true for an explicit null", 1, func() {
+		k := 0
+		for _, d := range p.AllDecls("openapi3") {
+			if d.Body == nil {
+				continue
+			}
+			// visitors only: functions that validate a value under settings
+			isVisitor := false
+			for _, f := range d.Type.Params.List {
+				if pt, ok := info.TypeOf(f.Type).(*types.Pointer); ok {
+					if nn := core.NamedOf(pt); nn != nil && nn.Obj().Name() == "schemaValidationSettings" {
+						isVisitor = true
+					}
+				}
+			}
+			if !isVisitor {
+				continue
+			}
+			ff := core.NewFuncFacts(p, info, d)
+			ast.Inspect(d.Body, func(n ast.Node) bool {
+				as, ok := n.(*ast.AssignStmt)
+				if !ok || len(as.Lhs) != 1 || len(as.Rhs) != 1 {
+					return true
+				}
+				ix, ok := ast.Unparen(as.Lhs[0]).(*ast.IndexExpr)
+				if !ok {
+					return true
+				}
+				if _, isMap := info.TypeOf(ix.X).Underlying().(*types.Map); !isMap {
+					return true
+				}
+				// the stored value derives from a Default field
+				fromDefault := false
+				for f := range ff.Roots(as.Rhs[0], false).Fields {
+					if f.Name() == "Default" {
+						fromDefault = true
+					}
+				}
+				if !fromDefault {
+					return true
+				}
+				k++
+				key := fmt.Sprintf("absent:%s#%d", core.FuncName(d), k)
+				byPresence, byNil := false, false
+				for _, a := range core.Atoms(core.GuardsAt(info, d.Body, as)) {
+					if id, ok := ast.Unparen(a.Expr).(*ast.Ident); ok && !a.Pos {
+						for _, asg := range ff.Assigns(info.ObjectOf(id)) {
+							if asg.MapIndex != nil && core.ExprStr(asg.MapIndex.X) == core.ExprStr(ix.X) {
+								byPresence = true
+							}
+						}
+					}
+					if be, ok := ast.Unparen(a.Expr).(*ast.BinaryExpr); ok {
+						for _, pair := range [][2]ast.Expr{{be.X, be.Y}, {be.Y, be.X}} {
+							if core.IsNil(info, pair[1]) {
+								if ix2, ok := ast.Unparen(pair[0]).(*ast.IndexExpr); ok && core.ExprStr(ix2.X) == core.ExprStr(ix.X) && (be.Op == token.EQL) == a.Pos {
+									byNil = true
+								}
+							}
+						}
+					}
+				}
+				switch {
+				case byPresence:
+					r.OK(key, p.Pos(as.Pos()), "guarded by the absence of the key")
+				case byNil:
+					r.Bad(key, p.Pos(as.Pos()), fmt.Sprintf("the default is stored when `%s == nil`: that holds for an absent property and for an explicit null alike, so `{\"a\": null}` is forwarded as `{\"a\": <default>}` — the request is changed beyond the insertion of defaults, and a null the schema forbids is never reported", core.ExprStr(as.Lhs[0])))
+				default:
+					r.Unknown(key, p.Pos(as.Pos()), "cannot tell under which condition the default is stored")
+				}
+				return true
+			})
+		}
+		if k == 0 {
+			core.Fail("no store of a schema Default into a value map found in openapi3")
 		}
 	})
 }
